@@ -74,7 +74,7 @@ def make_cfg(seed, i, typ):
     elif typ == "failpt":
         # reference run for the failpoint enumeration (see campaign.failpoint_cfgs): restart-heavy, with averaging and noise
         cfg = campaign.gen_cfg(rng, restarts_p=0.85, term_p=0.0, reg_p=0.08, proj_p=0.0, maxfuns=(30, 50, 80), nmax=3, npt_p=0.5,
-                               allow=("restarts", "regression", "growing"), averaging_p=0.3, noise_p=0.3)
+                               allow=("restarts", "regression", "growing", "rare"), averaging_p=0.3, noise_p=0.3)
         if cfg.get("reg"):
             cfg["args"]["maxfun"] = min(cfg["args"]["maxfun"], 25)
         if i % 4 == 1:
